@@ -210,6 +210,8 @@ class Emit:
             b = x[1]
             if b[0] == "path" and "::".join(b[1]) in self.index:
                 return "(" + self.index["::".join(b[1])].format(self.atom(x[2])) + ")"
+            if self.cfg.get("imperative"):
+                return "%s[%s]!" % (self.atom(b), self.e(x[2]))
             raise Unsupported("indexing")
         if k == "if":
             if x[3] is None:
@@ -246,6 +248,90 @@ class Emit:
                 fs.append("%s := %s" % (fmap[fn], self.e(fe)))
             return "({ " + ", ".join(fs) + " } : " + ty + ")"
         raise Unsupported("expression form " + k)
+
+    # ---- imperative bodies (loops with mutable vectors): state-passing translation
+    def assigned(self, stmts):
+        """variables assigned / pushed to / popped in the statements (recursively), minus those `let`-declared at this level"""
+        out, declared = [], set()
+        def add(v):
+            if v not in declared and v not in out:
+                out.append(v)
+        def walk(x):
+            if x[0] == "assign" and x[1][0] == "path" and len(x[1][1]) == 1:
+                add(x[1][1][0])
+            elif x[0] == "mcall" and x[2] in ("push", "pop", "clear", "truncate") and x[1][0] == "path":
+                add(x[1][1][0])
+            elif x[0] == "for":
+                for v in self.assigned(self.as_stmts(x[3])):
+                    add(v)
+            elif x[0] == "if":
+                for br in (x[2], x[3]):
+                    if br is not None:
+                        for v in self.assigned(self.as_stmts(br)):
+                            add(v)
+        for s in stmts:
+            if s[0] == "let":
+                declared |= self.pvars(s[1])
+            else:
+                walk(s[1])
+        return out
+
+    def as_stmts(self, blk):
+        """statements of a unit-valued block (a trailing `for`/`if` is a statement); an `else if` is one statement"""
+        if blk[0] != "block":
+            return [("expr", blk)]
+        st = list(blk[1])
+        if blk[2] is not None:
+            st.append(("expr", blk[2]))
+        return st
+
+    def tup(self, vs):
+        return ident(vs[0]) if len(vs) == 1 else "(" + ", ".join(ident(v) for v in vs) + ")"
+
+    def imp(self, stmts, result):
+        if not stmts:
+            return result
+        s, rest = stmts[0], stmts[1:]
+        tailstr = lambda: self.imp(rest, result)
+        if s[0] == "let":
+            return "let %s := %s;\n    %s" % (self.pat(s[1]), self.e(s[2]), tailstr())
+        x = s[1]
+        if x[0] == "macro" and x[1] in ("assert", "debug_assert", "assert_eq"):
+            return tailstr()
+        if x[0] == "assign" and x[1][0] == "path" and len(x[1][1]) == 1:
+            return "let %s := %s;\n    %s" % (ident(x[1][1][0]), self.e(x[2]), tailstr())
+        if x[0] == "mcall" and x[1][0] == "path" and len(x[1][1]) == 1 and x[2] == "push" and len(x[3]) == 1:
+            v = ident(x[1][1][0])
+            return "let %s := (%s ++ [%s]);\n    %s" % (v, v, self.e(x[3][0]), tailstr())
+        if x[0] == "mcall" and x[1][0] == "path" and len(x[1][1]) == 1 and x[2] == "pop" and not x[3]:
+            v = ident(x[1][1][0])
+            return "let %s := (List.dropLast %s);\n    %s" % (v, v, tailstr())
+        if x[0] == "for":
+            if x[1][0] != "pvar" or x[2][0] != "range":
+                raise Unsupported("for loop that is not `for i in a..b`")
+            body = self.as_stmts(x[3])
+            w = self.assigned(body)
+            if not w:
+                return tailstr()
+            t = self.tup(w)
+            a, b = self.e(x[2][1]), self.e(x[2][2])
+            return "let %s := (List.foldl (fun %s %s => (%s)) %s (List.range' %s (%s - %s)));\n    %s" % (
+                t, t, ident(x[1][1]), self.imp(body, t), t, a, b, a, tailstr())
+        if x[0] == "if":
+            thn = self.as_stmts(x[2])
+            els = self.as_stmts(x[3]) if x[3] is not None else []
+            w = self.assigned(thn + els)
+            if not w:
+                return tailstr()
+            t = self.tup(w)
+            return "let %s := (if %s then (%s) else (%s));\n    %s" % (t, self.e(x[1]), self.imp(thn, t), self.imp(els, t), tailstr())
+        raise Unsupported("imperative statement " + x[0])
+
+    def imperative(self, body):
+        _, stmts, tail = body
+        if tail is None:
+            raise Unsupported("imperative body without a value")
+        return "(" + self.imp(list(stmts), self.e(tail)) + ")"
 
     def dotted(self, x):
         if x[0] == "path" and len(x[1]) == 1:
@@ -306,6 +392,12 @@ KERNELS = [
          sig="(wpos : α) (k _p : α) : List α", field={"self.std_position_weight": "wpos"}),
     dict(group="Kalman", name="point_std_velocity", file="utils/kalman/kalman_2d_point.rs", impl=r"impl Point2DKalmanFilter \{", fn="std_velocity",
          sig="(wvel : α) (k _p : α) : List α", field={"self.std_velocity_weight": "wvel"}),
+    # ---- the Sutherland-Hodgman loops (C08): imperative body, state-passing translation
+    dict(group="Clip", name="sutherland_hodgman_clip", file="utils/clipping.rs", impl=None, fn="sutherland_hodgman_clip",
+         sig="(subject_polygon clipping_polygon : List (Pt α)) : List (Pt α)", imperative=True,
+         method={"coords_iter": "{0}", "collect": "{0}", "len": "List.length {0}"},
+         call={"Vec::default": "[]", "is_inside": "isInside {0} {1} {2}", "compute_intersection": "computeIntersection {0} {1} {2} {3}",
+               "LineString::new": "{0}", "Polygon::new": "{0}"}),
     # ---- SortMetric::metric (C02)
     dict(group="SMetric", name="sort_metric", file="trackers/sort/metric.rs",
          impl=r"impl ObservationMetric<SortAttributes, Universal2DBox> for SortMetric \{", fn="metric",
@@ -382,7 +474,7 @@ def gen(repo, cfgs, header, footer):
             text = open(path).read()
             # drop test modules so that helper fns of the same name in tests are not picked up
             params, body = parse_fn(text, c["fn"], c.get("impl"), c.get("occurrence", 0))
-            lean = Emit(c).block(body)
+            lean = Emit(c).imperative(body) if c.get("imperative") else Emit(c).block(body)
             out.append("/-- src/%s `%s` -/\ndef %s %s :=\n  %s\n" % (c["file"], c["fn"], c["name"], c["sig"], lean))
         except (Unsupported, OSError, KeyError, IndexError, ValueError) as ex:
             unread.append((c["name"], str(ex)))
@@ -409,16 +501,16 @@ deriving DecidableEq, Repr
 def lookupEpoch (m : List (Nat × Nat)) (k : Nat) : Option Nat := (m.find? (fun p => p.1 == k)).map (·.2)
 """
 # group -> (file, configs, header, namespace)
-K_GROUPS = ["Radius", "Box", "Inter", "Dist", "Kalman", "SMetric", "VMetric"]
+K_GROUPS = ["Radius", "Box", "Inter", "Dist", "Kalman", "SMetric", "VMetric", "Clip"]
 POSMETRIC = """/-- `PositionalMetricType` -/
 inductive PosMetric (α : Type) where
   | maha
   | iou (thr : α)
 """
-K_IMPORTS = {"Inter": "import SimVerif.Gen.KRadius\n", "Dist": "import SimVerif.Gen.KRadius\n",
+K_IMPORTS = {"Clip": "import SimVerif.Gen.KInter\n", "Inter": "import SimVerif.Gen.KRadius\n", "Dist": "import SimVerif.Gen.KRadius\n",
              "SMetric": "import SimVerif.Gen.KInter\nimport SimVerif.Gen.KKalman\n",
              "VMetric": "import SimVerif.Gen.KSMetric\nimport SimVerif.Gen.KRadius\nimport SimVerif.Model.VisualMetric\n"}
-K_PRELUDE = {"SMetric": POSMETRIC, "VMetric": "variable {F : Type}\n"}
+K_PRELUDE = {"Clip": "/-- `Vec` indexing panics out of range; the model reads a default there (never reached: indices are in range) -/\ninstance instInhabitedPt : Inhabited (Pt α) := ⟨((0 : α), (0 : α))⟩\n", "SMetric": POSMETRIC, "VMetric": "variable {F : Type}\n"}
 
 
 def main():
